@@ -74,6 +74,17 @@ def check(pm: ProgramModel, ctx: Ctx) -> None:
     ctx.check(v == 1 and not isinstance(v, Poly), "C13-LEAF", "leaf", loc(rec.unit.path, rec.node),
               "a feature without relations counts 1", bad=f"leaf feature counts {v!r}, expected 1")
 
+    # the root-only model through the entry function (paths that leave before the recursion)
+    state = {"top": True, "calls": []}
+    it = new_interp(state)
+    lone = mb.model(mb.feature("Root"), [mb.constraint("t", mb.node(mb.op("OR"), mb.node("Root"), mb.node(mb.op("NOT"), mb.node("Root"))))])
+    try:
+        v = it.call(top, [lone])
+    except AbsRaise as exc:
+        v = ("raise", exc.what)
+    ctx.check(v == 1 and not isinstance(v, (Poly, bool, tuple)), "C13-LEAF", "root-only-model", loc(top.unit.path, top.node),
+              "the model that consists of the root alone has exactly one configuration",
+              bad=f"count_configurations on the root-only model gives {v!r}, expected 1")
     contexts: list[tuple[D, ...]] = [(d,) for d in domain_wf(ctx.tier) if d.n <= 4 and d.min <= 4 and d.max <= 4]
     contexts += [(d,) for d in REP2]     # again, with other values of the irrelevant fields
     contexts += list(itertools.product(REP2, repeat=2))
